@@ -8,101 +8,87 @@
 #error "uri_parser.h needs VERIF_TRACK_ERRORS"
 #endif
 
-/* ================================================================== parser (C13 + C04) */
+/* ================================================================== parser (C13 + C04)
+ * The state functions never look at uri->uri_str: they see the remaining text through the advancing cursor `str` and
+ * store sub-views of it in the aws_uri.  Their contracts are therefore stated relative to S = old(str->ptr), N =
+ * old(str->len): every view they store is S[a, a+n) with a+n <= N, and the cursor afterwards is S[k, N).
+ * s_init_from_uri_str (unit init_from_uri_str) supplies "the cursor is a suffix of uri->uri_str", which makes every view
+ * a view into the URI's own copy of the text. */
 
 /* ---- libc memchr: ASSUMED contract (glibc's memchr is not examined), used as memchr/uri_memchr_contract.
- * Result = the FIRST occurrence.
- * g_m is an arbitrary byte offset inside the searched object (so that several searches over the same text speak about
- * the same byte); g_first[c] records the object offset of the latest result for character c (ghost "Skolem" output:
- * lets callers' contracts say "the first ':' is at ..." in both directions). */
+ * Result = the FIRST occurrence.  g_m is an arbitrary index into the searched range ("no c before the result" for that
+ * one index); g_first[c] records the index of the latest result for character c, NONE if absent (ghost "Skolem" output:
+ * lets the callers' contracts say "the first ':' is at ..." in both directions). */
 #define NONE SIZE_MAX
 size_t g_m;
 size_t g_first[256];
-#define MEMCHR_RES(r) ((r) == NULL ? NONE : (size_t)__CPROVER_POINTER_OFFSET(r))
+#define FIRST(c) (g_first[(uint8_t)(c)])
 void *uri_memchr_contract(const void *s, int c, size_t n)
 __CPROVER_requires(n == 0 || __CPROVER_r_ok(s, n))
 __CPROVER_assigns(g_first[(uint8_t)c])
-__CPROVER_ensures(n == 0 ==> RET == NULL)
-__CPROVER_ensures(RET != NULL ==> __CPROVER_pointer_in_range_dfcc((const uint8_t *)s, (const uint8_t *)RET, (const uint8_t *)s + (n - 1)) &&
-                  *(const uint8_t *)RET == (uint8_t)c)
-__CPROVER_ensures(g_first[(uint8_t)c] == MEMCHR_RES(RET))
-__CPROVER_ensures(n > 0 && g_m >= (size_t)__CPROVER_POINTER_OFFSET(s) && g_m - (size_t)__CPROVER_POINTER_OFFSET(s) < n &&
-                  (RET == NULL || g_m < (size_t)__CPROVER_POINTER_OFFSET(RET)) ==>
-                  ((const uint8_t *)s)[g_m - (size_t)__CPROVER_POINTER_OFFSET(s)] != (uint8_t)c)
+__CPROVER_ensures(RET == NULL ==> g_first[(uint8_t)c] == NONE && (g_m < n ==> ((const uint8_t *)s)[g_m] != (uint8_t)c))
+__CPROVER_ensures(RET != NULL ==> g_first[(uint8_t)c] < n && PEQ(RET, (void *)((const uint8_t *)s + g_first[(uint8_t)c])) &&
+                  ((const uint8_t *)s)[g_first[(uint8_t)c]] == (uint8_t)c &&
+                  (g_m < g_first[(uint8_t)c] ==> ((const uint8_t *)s)[g_m] != (uint8_t)c))
 ;
 
-/* ---- decimal parser of the port: the VALUE is abstracted (ghost outcome g_pu_ok / g_pu_val chosen by the harness, i.e.
- * arbitrary); the contract records which text was handed over (g_pu_off, g_pu_len).  Memory safety and termination of
- * the real s_read_unsigned are a C01/C04 unit; the numeric value is checked by the bounded units of C13. */
-bool g_pu_ok; uint64_t g_pu_val; size_t g_pu_off, g_pu_len, g_pu_calls;
+/* ---- decimal parser of the port, used as aws_byte_cursor_utf8_parse_u64/uri_parse_u64_contract: the VALUE is abstracted
+ * (ghost outcome g_pu_ok / g_pu_val chosen by the harness, i.e. arbitrary); the contract records which text was handed
+ * over (g_pu_ptr, g_pu_len).  The real function has its own contract and unit in C01; the numeric value of a port is
+ * checked end to end by the bounded units of C13. */
+bool g_pu_ok; uint64_t g_pu_val; size_t g_pu_len, g_pu_calls; const uint8_t *g_pu_ptr;
 int uri_parse_u64_contract(struct aws_byte_cursor cursor, uint64_t *dst)
 __CPROVER_requires(cursor.len == 0 || __CPROVER_r_ok(cursor.ptr, cursor.len))
 __CPROVER_requires(__CPROVER_w_ok(dst, sizeof(*dst)))
-__CPROVER_assigns(*dst, g_pu_off, g_pu_len, g_pu_calls)
+__CPROVER_assigns(*dst, g_pu_ptr, g_pu_len, g_pu_calls)
 __CPROVER_assigns(!g_pu_ok : g_last_error, g_raise_count)
-__CPROVER_ensures(g_pu_calls == OLD(g_pu_calls) + 1 && g_pu_len == cursor.len && g_pu_off == (size_t)__CPROVER_POINTER_OFFSET(cursor.ptr))
+__CPROVER_ensures(g_pu_calls == OLD(g_pu_calls) + 1 && g_pu_len == cursor.len && g_pu_ptr == cursor.ptr)
 __CPROVER_ensures(RET == (g_pu_ok ? AWS_OP_SUCCESS : AWS_OP_ERR))
 __CPROVER_ensures(g_pu_ok ==> *dst == g_pu_val)
 __CPROVER_ensures(!g_pu_ok ==> g_raise_count == OLD(g_raise_count) + 1)
 ;
 
 /* ---- shapes */
-#define PU (parser->uri)
-#define UB (parser->uri->uri_str.buffer)
-#define ULEN (parser->uri->uri_str.len)
-/* a component view is NULL/0 or lies inside the first uri_str.len bytes of the URI's own text */
-#define UVIEW_IN_(buf, blen, v)                                                                                         \
+#define S_ (OLD(str->ptr))
+#define N_ (OLD(str->len))
+#define TXT(k) (OLD(str->ptr)[k])
+/* view v is exactly S[a, a+n) */
+#define SUB_IS(v, a, n) ((v).len == (n) && PEQ((v).ptr, S_ + (a)))
+#define SUB_SAME(v) ((v).len == OLD((v).len) && (v).ptr == OLD((v).ptr))
+/* view v is NULL/0 or lies inside S[0, N) */
+#define SUB_IN(v)                                                                                                      \
     (((v).ptr == NULL && (v).len == 0) ||                                                                              \
-     ((buf) != NULL && __CPROVER_same_object((v).ptr, (buf)) && (size_t)__CPROVER_POINTER_OFFSET((v).ptr) <= (blen) && \
-      (v).len <= (blen) - (size_t)__CPROVER_POINTER_OFFSET((v).ptr)))
-#define UVIEW_IN(u, v) UVIEW_IN_((u)->uri_str.buffer, (u)->uri_str.len, (u)->v)
-#define ALL_UVIEWS_IN(u)                                                                                                \
-    (UVIEW_IN(u, scheme) && UVIEW_IN(u, authority) && UVIEW_IN(u, userinfo) && UVIEW_IN(u, user) && UVIEW_IN(u, password) && \
-     UVIEW_IN(u, host_name) && UVIEW_IN(u, path) && UVIEW_IN(u, query_string) && UVIEW_IN(u, path_and_query))
-/* view v is exactly bytes [off, off+n) of the text */
-#define UVIEW_IS(v, off, n) ((v).len == (n) && PEQ((v).ptr, UB + (off)))
-#define UVIEW_SAME(v) ((v).len == OLD((v).len) && (v).ptr == OLD((v).ptr))
-/* the advancing cursor is a suffix of the text */
-#define STR_IS_SUFFIX (str->len <= ULEN && (UB == NULL ? str->ptr == NULL : PEQ(str->ptr, UB + (ULEN - str->len))))
-#define OFF0 (ULEN - OLD(str->len))          /* text offset at which the cursor stood before the call */
-#define WIT_IN(lo, hi) (g_m >= (lo) && g_m < (hi)) /* witness offset inside [lo, hi) */
+     (S_ != NULL && __CPROVER_same_object((v).ptr, S_) &&                                                              \
+      (size_t)__CPROVER_POINTER_OFFSET((v).ptr) >= (size_t)__CPROVER_POINTER_OFFSET(S_) &&                             \
+      (size_t)__CPROVER_POINTER_OFFSET((v).ptr) - (size_t)__CPROVER_POINTER_OFFSET(S_) <= N_ &&                        \
+      (v).len <= N_ - ((size_t)__CPROVER_POINTER_OFFSET((v).ptr) - (size_t)__CPROVER_POINTER_OFFSET(S_))))
+/* the cursor afterwards is S[k, N) */
+#define STR_AT(k) (str->len == N_ - (k) && (S_ == NULL ? str->ptr == NULL : PEQ(str->ptr, S_ + (k))))
+/* "f is the index of the first c in S[lo, hi)" / "no c in S[lo, hi)"  (witness lo + g_m) */
+#define IS_FIRST_AT(c, f, lo, hi) ((f) >= (lo) && (f) < (hi) && TXT(f) == (c) && (g_m < (f) - (lo) ==> TXT((lo) + g_m) != (c)))
+#define NONE_IN(c, lo, hi) (g_m < (hi) - (lo) ==> TXT((lo) + g_m) != (c))
 
 #define PARSER_REQ                                                                                                     \
-    __CPROVER_requires(__CPROVER_is_fresh(parser, sizeof(*parser)))                                                 \
+    __CPROVER_requires(__CPROVER_is_fresh(parser, sizeof(*parser)))                                                    \
     __CPROVER_requires(__CPROVER_is_fresh(parser->uri, sizeof(struct aws_uri)))                                        \
-    __CPROVER_requires(BUF_FIELDS_OK(&parser->uri->uri_str))                                                           \
-    __CPROVER_requires(__CPROVER_is_fresh(str, sizeof(*str)))                                                          \
-    __CPROVER_requires(STR_IS_SUFFIX)                                                                                  \
-    __CPROVER_requires(ALL_UVIEWS_IN(parser->uri))
-#define PARSER_ENS                                                                                                     \
-    __CPROVER_ensures(STR_IS_SUFFIX)                                                                                   \
-    __CPROVER_ensures(ALL_UVIEWS_IN(parser->uri))
+    __CPROVER_requires(CUR_OK(str))
 #define RAISED (g_raise_count == OLD(g_raise_count) + 1 && g_last_error == AWS_ERROR_MALFORMED_INPUT_STRING)
 #define NOT_RAISED (g_raise_count == OLD(g_raise_count) && g_last_error == OLD(g_last_error))
-
-
-
-#define FIRST(c) (g_first[(uint8_t)(c)])
-/* "f is the offset of the first c in text[lo, hi)" / "there is no c in text[lo, hi)" (witness g_m) */
-#define IS_FIRST_AT(c, f, lo, hi) ((f) >= (lo) && (f) < (hi) && UB[f] == (c) && (WIT_IN(lo, f) ==> UB[g_m] != (c)))
-#define NONE_IN(c, lo, hi) (WIT_IN(lo, hi) ==> UB[g_m] != (c))
 
 /* ------------------------------------------------------------------ scheme
  * c = first ':' of the remaining text.  A scheme is recognised iff c exists and is followed by '/'; then it must be
  * followed by "//", else MALFORMED.  Otherwise nothing but the state changes. */
 #define SCH_C FIRST(':')
-#define SCH_FOUND (SCH_C != NONE && SCH_C + 1 < ULEN && UB[SCH_C + 1] == '/')
-#define SCH_WELL (SCH_C + 2 < ULEN && UB[SCH_C + 2] == '/')
+#define SCH_FOUND (SCH_C != NONE && SCH_C + 1 < N_ && TXT(SCH_C + 1) == '/')
+#define SCH_WELL (SCH_C + 2 < N_ && TXT(SCH_C + 2) == '/')
 static void s_parse_scheme(struct uri_parser *parser, struct aws_byte_cursor *str)
 PARSER_REQ
 __CPROVER_assigns(parser->state, parser->uri->scheme, str->ptr, str->len, g_first[(uint8_t)':'], g_last_error, g_raise_count)
-PARSER_ENS
-__CPROVER_ensures(SCH_C == NONE ? NONE_IN(':', OFF0, ULEN) : IS_FIRST_AT(':', SCH_C, OFF0, ULEN))
-__CPROVER_ensures(!SCH_FOUND ==> parser->state == ON_AUTHORITY && UVIEW_SAME(parser->uri->scheme) &&
-                  str->len == OLD(str->len) && NOT_RAISED)
-__CPROVER_ensures(SCH_FOUND ==> UVIEW_IS(parser->uri->scheme, OFF0, SCH_C - OFF0))
-__CPROVER_ensures(SCH_FOUND && SCH_WELL ==> parser->state == ON_AUTHORITY && str->len == ULEN - (SCH_C + 3) && NOT_RAISED)
-__CPROVER_ensures(SCH_FOUND && !SCH_WELL ==> parser->state == ERROR && str->len == ULEN - SCH_C && RAISED)
+__CPROVER_ensures(SCH_C == NONE ? NONE_IN(':', 0, N_) : IS_FIRST_AT(':', SCH_C, 0, N_))
+__CPROVER_ensures(!SCH_FOUND ==> parser->state == ON_AUTHORITY && SUB_SAME(parser->uri->scheme) && STR_AT(0) && NOT_RAISED)
+__CPROVER_ensures(SCH_FOUND ==> SUB_IS(parser->uri->scheme, 0, SCH_C))
+__CPROVER_ensures(SCH_FOUND && SCH_WELL ==> parser->state == ON_AUTHORITY && STR_AT(SCH_C + 3) && NOT_RAISED)
+__CPROVER_ensures(SCH_FOUND && !SCH_WELL ==> parser->state == ERROR && STR_AT(SCH_C) && RAISED)
 ;
 
 /* ------------------------------------------------------------------ path
@@ -110,13 +96,12 @@ __CPROVER_ensures(SCH_FOUND && !SCH_WELL ==> parser->state == ERROR && str->len 
 static void s_parse_path(struct uri_parser *parser, struct aws_byte_cursor *str)
 PARSER_REQ
 __CPROVER_assigns(parser->state, parser->uri->path_and_query, parser->uri->path, str->ptr, str->len, g_first[(uint8_t)'?'], g_last_error, g_raise_count)
-PARSER_ENS
-__CPROVER_ensures(parser->uri->path_and_query.len == OLD(str->len) && parser->uri->path_and_query.ptr == OLD(str->ptr))
-__CPROVER_ensures(parser->uri->path.ptr == OLD(str->ptr) && parser->uri->path.len <= OLD(str->len))
-__CPROVER_ensures(str->len == OLD(str->len) - parser->uri->path.len)
+__CPROVER_ensures(parser->uri->path_and_query.len == N_ && parser->uri->path_and_query.ptr == S_)
+__CPROVER_ensures(parser->uri->path.ptr == S_ && parser->uri->path.len <= N_)
+__CPROVER_ensures(STR_AT(parser->uri->path.len))
 __CPROVER_ensures(parser->state == FINISHED || parser->state == ON_QUERY_STRING)
-__CPROVER_ensures(parser->state == FINISHED ==> parser->uri->path.len == OLD(str->len) && NONE_IN('?', OFF0, ULEN))
-__CPROVER_ensures(parser->state == ON_QUERY_STRING ==> IS_FIRST_AT('?', OFF0 + parser->uri->path.len, OFF0, ULEN))
+__CPROVER_ensures(parser->state == FINISHED ==> parser->uri->path.len == N_ && NONE_IN('?', 0, N_))
+__CPROVER_ensures(parser->state == ON_QUERY_STRING ==> IS_FIRST_AT('?', parser->uri->path.len, 0, N_))
 __CPROVER_ensures(NOT_RAISED)
 ;
 
@@ -126,11 +111,86 @@ static void s_parse_query_string(struct uri_parser *parser, struct aws_byte_curs
 PARSER_REQ
 __CPROVER_requires(str->len > 0 && str->ptr[0] == '?')
 __CPROVER_assigns(parser->state, parser->uri->path_and_query, parser->uri->query_string, str->ptr, str->len)
-PARSER_ENS
-__CPROVER_ensures(parser->state == FINISHED && str->len == 0)
-__CPROVER_ensures(OLD(parser->uri->path_and_query.ptr) != NULL ? UVIEW_SAME(parser->uri->path_and_query)
-                  : (parser->uri->path_and_query.len == OLD(str->len) && parser->uri->path_and_query.ptr == OLD(str->ptr)))
-__CPROVER_ensures(UVIEW_IS(parser->uri->query_string, OFF0 + 1, OLD(str->len) - 1))
+__CPROVER_ensures(parser->state == FINISHED && STR_AT(N_))
+__CPROVER_ensures(OLD(parser->uri->path_and_query.ptr) != NULL ? SUB_SAME(parser->uri->path_and_query)
+                  : (parser->uri->path_and_query.len == N_ && parser->uri->path_and_query.ptr == S_))
+__CPROVER_ensures(SUB_IS(parser->uri->query_string, 1, N_ - 1))
+;
+
+
+/* ------------------------------------------------------------------ authority  (RFC 3986 3.2: [ userinfo "@" ] host [ ":" port ])
+ * A    = length of the authority = index of the first '/' or '?' of the remaining text, or N;
+ * AT   = index of the first '@' inside the authority (user-info present) or NONE;  R0 = start of host[:port];
+ * V6   = host starts with '['; BR = index (from R0) of the first ']'; PC = index (from the port search start PS) of the
+ *        first ':' at or after PS, where PS = R0 (+ BR for a bracketed host).
+ * The numeric value of the port text is abstract here (g_pu_ok/g_pu_val, see uri_parse_u64_contract). */
+#define AU (parser->uri)
+#define AU_A (AU->authority.len)
+#define AU_AT FIRST('@')
+#define AU_R0 (AU_AT == NONE ? (size_t)0 : AU_AT + 1)
+#define AU_RL (AU_A - AU_R0)
+#define AU_V6 (AU_RL > 0 && TXT(AU_R0) == '[')
+#define AU_BR FIRST(']')
+#define AU_OKBR (!(AU_V6 && AU_BR == NONE))
+#define AU_PS (AU_V6 ? AU_R0 + AU_BR : AU_R0)
+#define AU_PC FIRST(':')
+#define AU_PCA (AU_PS + AU_PC)
+#define AU_PL (AU_A - AU_PCA - 1)
+#define AU_ERR (parser->state == ERROR)
+#define AU_PORT_OK (g_pu_ok && g_pu_val <= UINT32_MAX)
+#define SAME_OR_IN(v) (SUB_SAME(v) || SUB_IN(v))
+static void s_parse_authority(struct uri_parser *parser, struct aws_byte_cursor *str)
+PARSER_REQ
+__CPROVER_requires(g_pu_calls == 0)
+__CPROVER_assigns(parser->state, g_last_error, g_raise_count)
+__CPROVER_assigns(g_first[(uint8_t)'/'], g_first[(uint8_t)'?'], g_first[(uint8_t)'@'], g_first[(uint8_t)':'], g_first[(uint8_t)']'])
+__CPROVER_assigns(g_pu_ptr, g_pu_len, g_pu_calls)
+__CPROVER_assigns(str->len > 0 : str->ptr, str->len, parser->uri->authority, parser->uri->path, parser->uri->path_and_query,
+                  parser->uri->userinfo, parser->uri->user, parser->uri->password, parser->uri->host_name, parser->uri->port)
+/* empty remaining text: MALFORMED */
+__CPROVER_ensures(N_ == 0 ==> AU_ERR && RAISED)
+/* C04: whatever is stored is a view into the remaining text */
+__CPROVER_ensures(SAME_OR_IN(AU->authority) && SAME_OR_IN(AU->userinfo) && SAME_OR_IN(AU->user) && SAME_OR_IN(AU->password) &&
+                  SAME_OR_IN(AU->host_name) && SAME_OR_IN(AU->path) && SAME_OR_IN(AU->path_and_query))
+/* extent of the authority */
+__CPROVER_ensures(N_ > 0 ==> AU->authority.ptr == S_ && AU_A <= N_ && STR_AT(AU_A))
+__CPROVER_ensures(N_ > 0 && AU_A == N_ ==> NONE_IN('/', 0, N_) && NONE_IN('?', 0, N_) &&
+                  AU->path.ptr == NULL && AU->path.len == 0 && AU->path_and_query.ptr == NULL && AU->path_and_query.len == 0)
+__CPROVER_ensures(N_ > 0 && AU_A < N_ ==> (TXT(AU_A) == '/' || TXT(AU_A) == '?') && SUB_SAME(AU->path) && SUB_SAME(AU->path_and_query))
+__CPROVER_ensures(N_ > 0 && AU_A < N_ ==> NONE_IN('/', 0, AU_A))
+/* RFC 3986 3.2: "The authority component is ... terminated by the next slash, question mark, or number sign, or by the end" */
+__CPROVER_ensures(N_ > 0 && AU_A < N_ ==> NONE_IN('?', 0, AU_A))
+__CPROVER_ensures(N_ > 0 && !AU_ERR ==> parser->state == (AU_A == N_ ? FINISHED : (TXT(AU_A) == '/' ? ON_PATH : ON_QUERY_STRING)))
+/* empty authority: nothing else is set */
+__CPROVER_ensures(N_ > 0 && AU_A == 0 ==> !AU_ERR && NOT_RAISED && SUB_SAME(AU->userinfo) && SUB_SAME(AU->user) &&
+                  SUB_SAME(AU->password) && SUB_SAME(AU->host_name) && AU->port == OLD(AU->port))
+/* user-info */
+__CPROVER_ensures(N_ > 0 && AU_A > 0 ==> (AU_AT == NONE ? NONE_IN('@', 0, AU_A) : IS_FIRST_AT('@', AU_AT, 0, AU_A)))
+__CPROVER_ensures(N_ > 0 && AU_A > 0 && AU_AT == NONE ==> SUB_SAME(AU->userinfo) && SUB_SAME(AU->user) && SUB_SAME(AU->password))
+__CPROVER_ensures(N_ > 0 && AU_A > 0 && AU_AT != NONE ==> SUB_IS(AU->userinfo, 0, AU_AT) && AU->user.ptr == S_ && AU->user.len <= AU_AT)
+__CPROVER_ensures(N_ > 0 && AU_A > 0 && AU_AT != NONE && AU->user.len == AU_AT ==> NONE_IN(':', 0, AU_AT) && SUB_SAME(AU->password))
+__CPROVER_ensures(N_ > 0 && AU_A > 0 && AU_AT != NONE && AU->user.len < AU_AT ==> IS_FIRST_AT(':', AU->user.len, 0, AU_AT) &&
+                  SUB_IS(AU->password, AU->user.len + 1, AU_AT - AU->user.len - 1))
+/* bracketed host without closing bracket: MALFORMED, host and port untouched */
+__CPROVER_ensures(N_ > 0 && AU_A > 0 && AU_V6 ==> (AU_BR == NONE ? NONE_IN(']', AU_R0, AU_A) : IS_FIRST_AT(']', AU_R0 + AU_BR, AU_R0, AU_A)))
+__CPROVER_ensures(N_ > 0 && AU_A > 0 && !AU_OKBR ==> AU_ERR && RAISED && SUB_SAME(AU->host_name) && AU->port == OLD(AU->port))
+/* port delimiter = first ':' of host[:port], after the closing bracket for a bracketed host */
+__CPROVER_ensures(N_ > 0 && AU_A > 0 && AU_OKBR ==> (AU_PC == NONE ? NONE_IN(':', AU_PS, AU_A) : IS_FIRST_AT(':', AU_PCA, AU_PS, AU_A)))
+/* no port */
+__CPROVER_ensures(N_ > 0 && AU_A > 0 && AU_OKBR && AU_PC == NONE ==> AU->port == 0 && !AU_ERR && NOT_RAISED && g_pu_calls == 0)
+__CPROVER_ensures(N_ > 0 && AU_A > 0 && !AU_V6 && AU_PC == NONE ==> SUB_IS(AU->host_name, AU_R0, AU_RL))
+__CPROVER_ensures(N_ > 0 && AU_A > 0 && AU_V6 && AU_OKBR && AU_PC == NONE && AU_BR == AU_RL - 1 ==> SUB_IS(AU->host_name, AU_R0 + 1, AU_RL - 2))
+/* port present */
+__CPROVER_ensures(N_ > 0 && AU_A > 0 && !AU_V6 && AU_PC != NONE ==> SUB_IS(AU->host_name, AU_R0, AU_PC))
+__CPROVER_ensures(N_ > 0 && AU_A > 0 && AU_V6 && AU_OKBR && AU_PC == 1 ==> SUB_IS(AU->host_name, AU_R0 + 1, AU_BR - 1))
+__CPROVER_ensures(N_ > 0 && AU_A > 0 && AU_OKBR && AU_PC != NONE && AU_PL == 0 ==> AU->port == 0 && !AU_ERR && NOT_RAISED && g_pu_calls == 0)
+__CPROVER_ensures(N_ > 0 && AU_A > 0 && AU_OKBR && AU_PC != NONE && AU_PL > 0 ==>
+                  g_pu_calls == 1 && g_pu_ptr == S_ + (AU_PCA + 1) && g_pu_len == AU_PL)
+__CPROVER_ensures(N_ > 0 && AU_A > 0 && AU_OKBR && AU_PC != NONE && AU_PL > 0 && AU_PORT_OK ==>
+                  AU->port == (uint32_t)g_pu_val && !AU_ERR && NOT_RAISED)
+__CPROVER_ensures(N_ > 0 && AU_A > 0 && AU_OKBR && AU_PC != NONE && AU_PL > 0 && !AU_PORT_OK ==>
+                  AU_ERR && AU->port == OLD(AU->port) && g_last_error == AWS_ERROR_MALFORMED_INPUT_STRING &&
+                  g_raise_count == OLD(g_raise_count) + (g_pu_ok ? 1 : 2))
 ;
 
 #endif
